@@ -253,7 +253,7 @@ CLASS_FLAGS = {
     'C01': ['C01W'], 'C02': ['C02', 'C02W', 'C02W_B'], 'C03': ['C03W_S1', 'C03W_S4', 'C03W_S5', 'C03W_S4R', 'C03W_S5R'],
     'C04': [], 'C05': ['C05W'], 'C06': ['C06W'], 'C07': ['C01W'], 'C08': ['C08W', 'C08S'], 'C09': ['C09W', 'C10W', 'C11W'],
     'C10': ['C10W', 'C10W_Q', 'C11W'], 'C11': ['C11W'], 'C12': ['C12W'], 'C13': ['C06W', 'C12W', 'C13Q'], 'C14': ['C14W'],
-    'C15': ['C15W', 'C15W_L', 'C15D'], 'C16': ['C16W', 'C16D'], 'C17': ['C17W', 'C17W_O'], 'C18': ['C18W', 'C18D'], 'C19': ['C19W'],
+    'C15': ['C15W', 'C15W_L', 'C15D'], 'C16': ['C16W', 'C16D'], 'C17': ['C17W', 'C17W_O'], 'C18': ['C18W', 'C18D'], 'C19': ['C19W', 'C19D'],
     'C20': ['C20W'],
 }
 
